@@ -9,6 +9,7 @@
 package transform // import "go.opentelemetry.io/otel/exporters/otlp/otlplog/otlploghttp/internal/transform"
 
 import (
+	"math"
 	"time"
 
 	cpb "go.opentelemetry.io/proto/otlp/common/v1"
@@ -98,6 +99,7 @@ func LogRecord(record log.Record) *lpb.LogRecord {
 		Attributes:           make([]*cpb.KeyValue, 0, record.AttributesLen()),
 		Flags:                uint32(record.TraceFlags()),
 		// TODO: DroppedAttributesCount: /* ... */,
+		DroppedAttributesCount: clampUint32(record.DroppedAttributes()),
 	}
 	record.WalkAttributes(func(kv api.KeyValue) bool {
 		r.Attributes = append(r.Attributes, LogAttr(kv))
@@ -388,4 +390,15 @@ func SeverityNumber(s api.Severity) lpb.SeverityNumber {
 		return lpb.SeverityNumber_SEVERITY_NUMBER_FATAL4
 	}
 	return lpb.SeverityNumber_SEVERITY_NUMBER_UNSPECIFIED
+}
+
+// clampUint32 converts v to uint32, saturating at the bounds.
+func clampUint32(v int) uint32 {
+	if v < 0 {
+		return 0
+	}
+	if int64(v) > math.MaxUint32 {
+		return math.MaxUint32
+	}
+	return uint32(v) // nolint: gosec  // Overflow/Underflow checked.
 }
